@@ -1677,6 +1677,22 @@ def nested_bridge_unit(rep, wd):
         return b, tag, p.returncode, p.stderr[-600:], tree
     jobs = [(b, tag, attr) for b in BACKENDS for tag, attr in [("base", None)] + sorted(NESTED_OUTER_ATTRS.items())]
     res = {(b, tag): (rc, err, tree) for b, tag, rc, err, tree in pmap(one, jobs)}
+    # an ordinary module INSIDE the bridge module is no bridge either: its items are private helper code
+    inner_mod = ("        pub mod c14_detail {\n            pub struct C14Scratch { pub a: u8 }\n            pub enum C14Mode { X, Y }\n"
+                 "            impl C14Scratch { pub fn helper(&self) -> u8 { self.a } }\n        }\n")
+
+    def one_inner(b):
+        d = os.path.join(wd, "nested-inner-%s" % b)
+        os.makedirs(d, exist_ok=True)
+        src = os.path.join(d, "lib.rs")
+        text = "pub mod api {\n%s}\n" % NESTED_INNER.replace("        impl C14Engine {", inner_mod + "        impl C14Engine {", 1)
+        with open(src, "w") as fh:
+            fh.write(text)
+        p = run_tool(b, src, os.path.join(d, "out"), configs=list(default_configs(b)), timeout=300)
+        tree = read_tree(os.path.join(d, "out")) if p.returncode == 0 else None
+        shutil.rmtree(d, ignore_errors=True)
+        return b, p.returncode, p.stderr[-600:], tree, text
+    inner = {b: (rc, err, tree, text) for b, rc, err, tree, text in pmap(one_inner, list(BACKENDS))}
     n = 0
     for b in BACKENDS:
         rc0, err0, t0 = res[(b, "base")]
@@ -1694,6 +1710,14 @@ def nested_bridge_unit(rep, wd):
                                "differing_files": diff[:20]},
                               "attribute `%s` on the ordinary module enclosing a bridge module changes the %s output (exit %s; files %s)" % (
                                   NESTED_OUTER_ATTRS[tag].replace("\n", " "), b, rc, diff[:6]))
+    for b in BACKENDS:
+        rc0, err0, t0 = res[(b, "base")]
+        rc, err, t, text = inner[b]
+        n += 1
+        if rc != rc0 or t != t0:
+            diff = sorted(k for k in set(t or {}) | set(t0) if (t or {}).get(k) != t0.get(k))
+            rep.violation("C14|nonbridge-module-inside-bridge|%s" % b, {"backend": b, "program": text, "exit": rc, "stderr": err, "differing_files": diff[:20]},
+                          "an ordinary module nested inside a bridge module changes the %s output (exit %s; files %s)" % (b, rc, diff[:6]))
     return n
 
 
@@ -1933,7 +1957,7 @@ def replay(path):
     w = doc["witness"]
     build_tool()
     wd = workdir("C14-replay")
-    if doc["key"].startswith(("C14|nonbridge-parent-module-attribute|", "C14|config-overrides-nondeterministic|", "C14|locality|")):
+    if doc["key"].startswith(("C14|nonbridge-module-inside-bridge|", "C14|nonbridge-parent-module-attribute|", "C14|config-overrides-nondeterministic|", "C14|locality|")):
         # fixed-shape units: run them again as a whole, the same key must come back
         class _R:
             keys = []
